@@ -1067,4 +1067,143 @@ theorem api_lists_abs {t : Table} (hw : WF t) (a : ApiRoute) :
       refine ⟨h, r, tg, by rw [hget]; exact hm, htg, ?_⟩
       simp only [apiEntry, hhost, hp]
 
+/-! ### the listing per host and path, in order -/
+
+def atKey (h p : Str) (a : ApiRoute) : Bool := a.host == h && a.path == p
+
+theorem filter_entries_ne (h p : Str) (r : Route) (hne : ¬ (r.host = h ∧ r.path = p)) :
+    (r.targets.map (apiEntry r)).filter (atKey h p) = [] := by
+  rw [List.filter_eq_nil_iff]
+  intro a ha
+  obtain ⟨tg, _, rfl⟩ := List.mem_map.1 ha
+  simp only [atKey, apiEntry, Bool.and_eq_true, beq_iff_eq]
+  exact hne
+
+theorem filter_entries_eq (r : Route) :
+    (r.targets.map (apiEntry r)).filter (atKey r.host r.path) = r.targets.map (apiEntry r) := by
+  rw [List.filter_eq_self]
+  intro a ha
+  obtain ⟨tg, _, rfl⟩ := List.mem_map.1 ha
+  simp [atKey, apiEntry]
+
+theorem filter_routes (h p : Str) (rs : List Route) (hh : ∀ r ∈ rs, r.host = h) (hn : (rs.map (·.path)).Nodup) :
+    (rs.flatMap (fun r => r.targets.map (apiEntry r))).filter (atKey h p) =
+      (match findRoute rs p with
+       | some r => r.targets.map (apiEntry r)
+       | none => []) := by
+  induction rs with
+  | nil => rfl
+  | cons x xs ih =>
+    simp only [List.map_cons, List.nodup_cons] at hn
+    have hx : x.host = h := hh x (by simp)
+    have ih' := ih (fun r hr => hh r (List.mem_cons_of_mem _ hr)) hn.2
+    rw [List.flatMap_cons, List.filter_append, ih']
+    unfold findRoute
+    rw [List.find?_cons]
+    by_cases hp : x.path = p
+    · have : (x.path == p) = true := by simpa using hp
+      rw [this]
+      subst hp; subst hx
+      rw [filter_entries_eq]
+      have hnone : List.find? (fun r => r.path == x.path) xs = none := by
+        rw [List.find?_eq_none]
+        intro r hr
+        have : r.path ≠ x.path := fun he => hn.1 (by rw [← he]; exact List.mem_map.2 ⟨r, hr, rfl⟩)
+        simpa using this
+      rw [hnone]; simp
+    · have : (x.path == p) = false := by simpa using hp
+      rw [this, filter_entries_ne h p x (fun hc => hp hc.2)]
+      simp
+
+theorem nodup_insertHostAsc (h : Str) (l : List Str) (hn : l.Nodup) (hh : h ∉ l) : (insertHostAsc h l).Nodup := by
+  induction l with
+  | nil => simp [insertHostAsc]
+  | cons y ys ih =>
+    simp only [List.nodup_cons] at hn
+    simp only [List.mem_cons, not_or] at hh
+    unfold insertHostAsc
+    split
+    · simp only [List.nodup_cons, List.mem_cons, not_or]
+      exact ⟨⟨hh.1, hh.2⟩, hn.1, hn.2⟩
+    · simp only [List.nodup_cons, mem_insertHostAsc, not_or]
+      exact ⟨⟨fun he => hh.1 he.symm, hn.1⟩, ih hn.2 hh.2⟩
+
+theorem nodup_hostsAsc (t : Table) (hn : (t.map (·.1)).Nodup) : (hostsAsc t).Nodup := by
+  unfold hostsAsc
+  generalize t.map (·.1) = l at hn ⊢
+  induction l with
+  | nil => exact List.nodup_nil
+  | cons y ys ih =>
+    simp only [List.nodup_cons] at hn
+    simp only [List.foldr_cons]
+    apply nodup_insertHostAsc _ _ (ih hn.2)
+    intro hm
+    have : ∀ (l : List Str) (x : Str), x ∈ l.foldr insertHostAsc [] ↔ x ∈ l := by
+      intro l x
+      induction l with
+      | nil => simp
+      | cons z zs ihz => simp only [List.foldr_cons, mem_insertHostAsc, ihz, List.mem_cons]
+    exact hn.1 ((this ys y).1 hm)
+
+theorem filter_hosts (F : Str → List ApiRoute) (P : ApiRoute → Bool) (h : Str) (L : List Str) (hn : L.Nodup)
+    (hF : ∀ h', h' ≠ h → (F h').filter P = []) :
+    (L.flatMap F).filter P = if h ∈ L then (F h).filter P else [] := by
+  induction L with
+  | nil => simp
+  | cons y ys ih =>
+    simp only [List.nodup_cons] at hn
+    rw [List.flatMap_cons, List.filter_append, ih hn.2]
+    by_cases hy : y = h
+    · subst hy
+      simp [hn.1]
+    · rw [hF y hy]
+      have : (h ∈ y :: ys) ↔ h ∈ ys := by
+        simp only [List.mem_cons]
+        constructor
+        · rintro (he | he)
+          · exact absurd he.symm hy
+          · exact he
+        · exact .inr
+      simp only [List.nil_append, this]
+
+/-- the listing, restricted to one host and path, is the target list of the routing map there — in order -/
+theorem api_at_key {t : Table} (hw : WF t) (h p : Str) :
+    (apiRoutes t).filter (atKey h p) = (abs t h p).map (apiEntry ⟨h, p, abs t h p⟩) := by
+  unfold apiRoutes
+  have hF : ∀ h', h' ≠ h →
+      ((t.get h').flatMap (fun r => r.targets.map (apiEntry r))).filter (atKey h p) = [] := by
+    intro h' hne
+    rw [List.filter_eq_nil_iff]
+    intro a ha
+    simp only [List.mem_flatMap, List.mem_map] at ha
+    obtain ⟨r, hr, tg, _, rfl⟩ := ha
+    rcases C05Del.get_mem_or_nil t h' with h0 | h0
+    · rw [h0] at hr; cases hr
+    · have : r.host = h' := hw.hostOf _ h0 r hr
+      simp only [atKey, apiEntry, Bool.and_eq_true, beq_iff_eq, this]
+      exact fun hc => hne hc.1
+  rw [filter_hosts _ _ h _ (nodup_hostsAsc t hw.hosts) hF]
+  have habs : abs t h p = (match findRoute (t.get h) p with
+      | some r => r.targets
+      | none => []) := by
+    show targetsAt t h p = _
+    unfold targetsAt Table.route
+    rfl
+  rcases C05Del.get_mem_or_nil t h with h0 | h0
+  · -- no such host
+    have : abs t h p = [] := by rw [habs, h0]; rfl
+    rw [this, h0]
+    split <;> rfl
+  · have hmem : h ∈ hostsAsc t := (mem_hostsAsc t h).2 (List.mem_map.2 ⟨_, h0, rfl⟩)
+    rw [if_pos hmem, filter_routes h p (t.get h) (hw.hostOf _ h0) (hw.paths _ h0), habs]
+    cases hf : findRoute (t.get h) p with
+    | none => rfl
+    | some r =>
+      have hr := C05Add.find_some hf
+      have hhost : r.host = h := hw.hostOf _ h0 r hr.1
+      simp only
+      apply List.map_congr_left
+      intro tg _
+      simp only [apiEntry, hhost, hr.2]
+
 end Fabio.Lemmas.C05Glue
